@@ -38,6 +38,7 @@ type Step struct {
 	Keep    bool   `json:"keep"`
 	Written []int  `json:"written"`
 	Orig    []int  `json:"orig"` // pages the specification's flush set out to write
+	Part    int    `json:"part"` // crash in a log append: how much of the write call under way reached the file (0 none, 1 first byte, 2 half, 3 all but the last byte)
 	K       int    `json:"k"`    // setcache capacity
 	Bad     bool   `json:"bad"`  // CREATE TABLE with a column declaration the catalog cannot hold
 }
@@ -513,6 +514,31 @@ func walCut(before []byte, ios []storage.VerifIO, e int, keep bool) ([]byte, boo
 	return out, true
 }
 
+// walPart appends to a cut log the first bytes of the write call that was under way (call number e), as Step.Part says.
+func walPart(out []byte, ios []storage.VerifIO, e int, part int) ([]byte, bool) {
+	var ev []storage.VerifIO
+	for _, x := range ios {
+		if x.File == "wal" {
+			ev = append(ev, x)
+		}
+	}
+	if part == 0 {
+		return out, true
+	}
+	if e >= len(ev) || ev[e].Kind == "sync" || len(ev[e].Data) < 2 {
+		return nil, false
+	}
+	d := ev[e].Data
+	n := 1
+	switch part {
+	case 2:
+		n = len(d) / 2
+	case 3:
+		n = len(d) - 1
+	}
+	return append(out, d[:n]...), true
+}
+
 // flushCut: data file if the process dies inside a flush after exactly the pages `written` were written
 // (header not yet).
 func flushCut(before []byte, ios []storage.VerifIO, written []int) ([]byte, string) {
@@ -710,6 +736,13 @@ func replay(sc Scenario) (res Result) {
 				if !ok {
 					res.Diverged = fmt.Sprintf("the real statement issued fewer log writes than the specification (crash point %d/%s)", st.I, st.Sub)
 					return
+				}
+				if walNow, ok = walPart(walNow, pending.ios, 3*st.I+subIdx(st.Sub), st.Part); !ok {
+					res.Diverged = fmt.Sprintf("no write call under way at crash point %d/%s", st.I, st.Sub)
+					return
+				}
+				if st.Part > 0 {
+					w.feat[fmt.Sprintf("crash-wal-inside-%s-write", st.Sub)] = true
 				}
 				if err := writeImage(cur.tbl, walNow); err != nil {
 					res.Diverged = err.Error()
@@ -1578,6 +1611,13 @@ func randomRun(rq RandReq) (res Result) {
 			keep := rng.Intn(2) == 0
 			if cut < nWal {
 				walNow, _ := walCut(before.wal, ios, cut, keep)
+				if keep {
+					// ... or inside that write call: some of its bytes reached the file
+					if wn, ok := walPart(walNow, ios, cut, rng.Intn(4)); ok && len(wn) > len(walNow) {
+						walNow = wn
+						res.Stats["crash-inside-log-write"]++
+					}
+				}
 				cur := takeSnap()
 				w.abandon()
 				if err := writeImage(cur.tbl, walNow); err != nil {
